@@ -997,7 +997,7 @@ def run(ctx):
                             "root oracle bin/cert (Properties_ORACLE.v) judges every reported violation",
                             "harness/c04_radius.c builds polynomial and approximations through the public constructors and calls the primitives of the library under ASan/UBSan",
                             "the model expressions of the coded radii (checks/C04.py model_*) are hand-written from newton.c / general-radius.c / secular-equation.c and pinned to the exported values in the exact-Horner regime only",
-                            "rounding inside mps_fnewton/mps_dnewton/mps_mnewton: theorems of Radius/NewtonCodedProofs.v under the hypothesis std_round (standard model of rounding, no under/overflow); the transcription Radius/NewtonCoded.v is replayed bit for bit (bin/newtonfl: Flocq binary64 / C12 DPE model, extraction ExtrOcamlBasic+ExtrOcamlNativeString, hand-written ocaml/newtonfl_driver.ml) against the library through harness/c04_newtonfl.c (-Wl,--wrap=cplx_mod,cdpe_mod,mpc_get_cdpe recording wrappers)",
+                            "rounding inside mps_fnewton/mps_dnewton/mps_mnewton: theorems of Radius/NewtonCodedProofs.v under the hypothesis std_round (standard model of rounding, no under/overflow); the transcription Radius/NewtonCoded.v is replayed bit for bit (bin/newtonfl: Flocq binary64 / C12 DPE model with the repaired DPE x double products of Dpe/DpeModel2.v, extraction ExtrOcamlBasic+ExtrOcamlNativeString, hand-written ocaml/newtonfl_driver.ml) against the library through harness/c04_newtonfl.c (-Wl,--wrap=cplx_mod,cdpe_mod,mpc_get_cdpe recording wrappers)",
                             "the mpf Horner loops of mps_mnewton are not modelled bit for bit (their results p^, p1^ are read from the recorded mpc_get_cdpe calls and judged exactly); the sparse path of mps_mnewton is not modelled",
                             "the numeric instance of COND (which degrees the constant 4 covers) is evaluated in exact rationals by the check, not proved in Coq"]}
     return ctx.finish("proof", cov, ["the relative error eta of the computed derivative is a hypothesis of C04_fnewton_coded_sound_partial / C04_dnewton_coded_sound_partial",
@@ -1399,7 +1399,8 @@ def newtonfl_tie(ctx):
             apm = nf_bits_d(map_[0])
             if apm is None or None in ph or None in z: st["error-term:non-finite:" + key] += 1; continue
             if kind == "XD":
-                E = Fr(float(apm) * float(epsE)) * pow2(int(map_[1]))          # rdpe_mul_d: mantissa product in double
+                # rdpe_mul_d since /repo 76adc971: rdpe_set_d (t, eps); rdpe_mul (apeps, ap, t) -- product of the two normalised mantissas in double
+                em, ee = math.frexp(float(epsE)); E = Fr(float(apm) * em) * pow2(int(map_[1]) + ee)
             else:
                 epm, epe = math.frexp(float(n)); E = Fr(float(apm) * epm) * pow2(int(map_[1]) + epe + 2 - c["wp"])
             ex = peval(cs, z); d = csub(ph, ex); st["error-term:judged:" + key] += 1
